@@ -14,7 +14,10 @@ position (last element, exhausted) on stores of 0..5 entities; paged filters (Ne
 bolt / typed / filtered / tree providers in both directions.
 Several cursors alive at once (Cursor/Product.v, harness c14_multi.go, M lines): families of 2-3 cursors in one transaction (the
 same set symbol on different / the same rows; every pair of cursor families over the same / different buckets), each with its own
-Next/Seek program, interleaved in every bounded merge order, all cursors re-observed after every turn: non-interference."""
+Next/Seek program, interleaved in every bounded merge order, all cursors re-observed after every turn: non-interference.
+The cursor protocol (harness c14_proto.go, case lines with " @ modes"): IsValid / Current / Next / Seek in any order - Next or Seek as
+the first call on a fresh cursor, operations without a look in between, Current before / without IsValid - on every cursor kind;
+reference = the ordinary trace of the same case projected on the points looked at (looking is a function of the state, Cursor/Core.v)."""
 import json
 import os
 import subprocess
@@ -399,7 +402,7 @@ def main(argv):
         "Cursor/BoltCursor.v as a description of bbolt 1.4.0 cursors (compared with real bbolt on every run: case kind B)",
         "llrb.Tree as an ordered set (replace on equal, in-order Left/Right links); its balancing is not modelled",
         "extraction (ExtrOcamlBasic only) + extraction/c14_driver.ml + drv_common.ml",
-        "Go harness cmd/storageharness/c14.go, c14_reuse.go, c14_scan.go, c14_multi.go (stores, generators) and this comparison / oracle",
+        "Go harness cmd/storageharness/c14.go, c14_reuse.go, c14_scan.go, c14_multi.go, c14_proto.go (stores, generators) and this comparison / oracle",
         "filters of the scanner cases: the set of ids a filter accepts is what the harness wrote (role r<mask> on the ids of mask); evaluation of filters is C01's subject",
         "uniqueIndexScanner.targetLimit = math.MaxInt64 (no limit) is modelled as 'never reached'; a paged scanner cursor that is SOUGHT is compared with the model only (design/C14.md section 9)",
         "composite set symbols (stackedCursor): no C14 model, implementation compared with the specification (concatenation computed by the harness) only",
@@ -633,7 +636,13 @@ def main(argv):
                      "27 (64) row triples x every merge order; every ordered pair of the 30 cursor families over the same / different buckets with Next and Seek programs; "
                      "AllOf/AnyOf iterators over seeded random role assignments x all value lists of length <= 3; B: seeded random First/Last/Next/Prev/Seek "
                      "sequences on real bbolt buckets (all 32 subsets, one multi-page bucket, read-only and writable transactions). "
-                     "Observed after the constructor and after every op: IsValid / Current. Non-trivial: the specification trace contains at least one valid "
+                     "CURSOR PROTOCOL (case lines with ' @ modes'): every seekable kind / hand-out site, the hand-outs for missing things and the emptyCursors over "
+                     "8 (32) subsets x every op sequence of length 1-2 over {Next, Seek t} (3 (5) targets) x every observation protocol with one of {not looked at, "
+                     "IsValid then Current, Current then IsValid, Current only, IsValid only} at each point (Next or Seek as the first call on a fresh cursor, "
+                     "operations without a look in between, Current without / before IsValid), Next-walks with the first k points untouched for all kinds incl. "
+                     "filtered / union / tree and the AllOf/AnyOf iterators, idxkey, three protocols for every unpaged scanner-cursor program of length 1-2; reference = "
+                     "the trace of the same case projected on the points looked at. "
+                     "Otherwise observed after the constructor and after every op: IsValid / Current. Non-trivial: the specification trace contains at least one valid "
                      "position (B: at least one key returned); distinct by case text.")
     c.cov["samples"] = samples[:4]
     c.cov["exhaustive"] = True
